@@ -66,6 +66,7 @@ type cnCfg struct {
 	MaxValidators int    `json:"max_validators"`
 	MaxPerEntity  int    `json:"max_per_entity"`
 	ExtraNodes    int    `json:"extra_nodes"` // entity 0 runs this many additional validator nodes
+	TiedStake     bool   `json:"tied_stake"`  // every validator entity starts with the same escrow
 }
 
 type cnValidator struct {
@@ -222,6 +223,9 @@ func (n *cnNet) buildGenesis() error {
 	for i := 0; i < cfg.Validators; i++ {
 		v := n.vals[i]
 		self := uint64(200 + 60*i)
+		if cfg.TiedStake {
+			self = 320
+		}
 		stk.Ledger[v.entAddr] = &staking.Account{
 			General: staking.GeneralAccount{Balance: q(1_000)},
 			Escrow: staking.EscrowAccount{
